@@ -67,6 +67,21 @@ class Master:
         except Exception:  # noqa  (a verdict about the code, not a harness failure)
             self.hung = self.raised = True
         self.s.deadline = None
+        if noise is not None and not getattr(self, "hung", False):
+            # the frames scheduled to arrive "later" have all arrived before the next step starts, and the application has
+            # polled and read them (a master that returned early must not leave them to block the next injection)
+            self.s.advance(6_000_000)
+            self.s.deadline = self.s.now + 400_000_000
+            try:
+                for _ in range(3):
+                    self.m.update()
+                    while self.m.available():
+                        self.m.read()
+            except sim.WatchdogExpired:
+                self.hung = True
+            except Exception:  # noqa
+                self.hung = self.raised = True
+            self.s.deadline = None
         out = []
         for p in self.air.log:
             d = p["data"]
